@@ -23,6 +23,7 @@ from vf.models.base import Model
 MOVES = np.array([[0, 0], [-1, 0], [0, 1], [1, 0], [0, -1]], np.int64)  # noop, up, right, down, left
 LAST = 2
 HAM_BUDGET = 20000
+_CODE = {(-1, 0): 1, (0, 1): 2, (1, 0): 3, (0, -1): 4}
 
 
 def _pv(k):  # path / head / target values of agent k
@@ -97,6 +98,29 @@ def hamiltonian_path(cells, start, end):
     if r is True:
         return list(path)
     return "budget" if r == "budget" else None
+
+
+def bfs_first_step(passable, start, goals):
+    """First cell after `start` on a shortest 4-connected path from `start` to any cell of the set `goals`,
+    moving only through cells for which passable(cell) is true (goal cells count as passable); None if
+    there is no such path or start is already a goal."""
+    start = tuple(start)
+    if start in goals:
+        return None
+    first = {start: None}
+    todo = [start]
+    while todo:
+        nxt = []
+        for p in todo:
+            for q in ((p[0] - 1, p[1]), (p[0], p[1] + 1), (p[0] + 1, p[1]), (p[0], p[1] - 1)):
+                if q in first or not (q in goals or passable(q)):
+                    continue
+                first[q] = q if first[p] is None else first[p]
+                if q in goals:
+                    return first[q]
+                nxt.append(q)
+        todo = nxt
+    return None
 
 
 class M(Model):
@@ -477,6 +501,62 @@ class M(Model):
             out.append(("replaying the generator's solution does not connect every agent", f"routes {routes}"))
         return out
 
+
+    # ------------------------------------------------------------------------------------ plan bias
+    def solve_action(self, s, r=0):
+        """Joint action of a greedy policy (used by the 'solve' plan mode / synthetic C09 episodes): every
+        unconnected agent follows a shortest path to its target through empty cells, never aiming at a cell
+        another agent aims at in the same step."""
+        pos, tgt, _, _ = self._tab(s)
+        g = np.asarray(s.grid)
+        act = np.zeros(self.A, np.int64)
+
+        def free(q):
+            return self._inside(q) and int(g[q[0], q[1]]) == 0
+
+        claimed = set()
+        for k in [(k + int(r)) % self.A for k in range(self.A)]:
+            p = tuple(pos[k].tolist())
+            if not self._inside(p) or (pos[k] == tgt[k]).all():
+                continue
+            nxt = bfs_first_step(lambda q: free(q) and q not in claimed, p, {tuple(tgt[k].tolist())})
+            if nxt is None or nxt in claimed:
+                continue
+            claimed.add(nxt)
+            act[k] = _CODE[(nxt[0] - p[0], nxt[1] - p[1])]
+        return act
+
+    def crowd_action(self, s, hub):
+        """Adversarial policy: agents gather around the first still empty cell of the list `hub` and then enter
+        it in the same step (collision of up to four agents).  Falls back to the solver when no hub is left."""
+        pos, tgt, _, _ = self._tab(s)
+        g = np.asarray(s.grid)
+        hubs = [(int(h[0]) % self.G, int(h[1]) % self.G) for h in hub]
+        hubs = [h for h in hubs if int(g[h]) == 0]
+        if not hubs:
+            return self.solve_action(s)
+        hub = hubs[0]
+        act = np.zeros(self.A, np.int64)
+        live = [k for k in range(self.A) if not (pos[k] == tgt[k]).all() and self._inside(pos[k])]
+        near = [k for k in live if _adjacent(tuple(pos[k].tolist()), hub)]
+        if len(near) >= min(3, len(live)) or int(s.step_count) >= 2 * self.G:
+            for k in near:
+                act[k] = _CODE[(hub[0] - int(pos[k][0]), hub[1] - int(pos[k][1]))]
+            return act
+        ring = {q for q in ((hub[0] - 1, hub[1]), (hub[0] + 1, hub[1]), (hub[0], hub[1] - 1), (hub[0], hub[1] + 1))
+                if self._inside(q) and int(g[q]) == 0}
+        claimed = set()
+        for k in live:
+            if k in near:
+                continue
+            p = tuple(pos[k].tolist())
+            nxt = bfs_first_step(lambda q: self._inside(q) and int(g[q]) == 0 and q != hub and q not in claimed, p, ring - claimed)
+            if nxt is None or nxt in claimed:
+                continue
+            claimed.add(nxt)
+            act[k] = _CODE[(nxt[0] - p[0], nxt[1] - p[1])]
+        return act
+
     # ------------------------------------------------------------------------------------ C12
     def observe_check(self, s, obs):
         out = []
@@ -532,3 +612,87 @@ EXTRA_INSTANCE_CONFIGS = {
     # uniform generator at the dense corners
     "uni-g3a3": _plain("uni", 3, 3), "uni-g4a4": _plain("uni", 4, 4), "uni-g8a5": _plain("uni", 8, 5),
 }
+
+
+# ------------------------------------------------------------------------------------------ C09 synthetic
+# Random play rarely connects all agents and almost never produces a collision of three agents, so the
+# synthetic shard plays menu configurations with the greedy solver (connections, completed episodes) and
+# with the 'crowd' policy (all agents head for the same empty cell: two-, three- and more-agent collisions),
+# with Hypothesis-drawn deviations, against the real env under the generic C09 monitor.
+SYNTHETIC_SHARDS = {"quick": 1, "thorough": 2}
+_SYN_ENTRIES = ["g6a3t50rw", "g10a10t50uni", "g8a4t50rw", "g10a10t50rw"]
+
+
+def _syn_policy(model, mode, noise):
+    def policy(hs, t):
+        z = noise[t % len(noise)]
+        act = model.crowd_action(hs, list(zip(noise[0::2], noise[1::2]))) if mode == "crowd" else model.solve_action(hs)
+        if z % 5 == 0:  # deviation: one agent plays an arbitrary action
+            act[z % model.A] = (z // 7) % 5
+        return act
+    return policy
+
+
+def _syn_episode(b, ctx, model, key, policy, max_steps, extra):
+    from vf import envs, episodes
+    from vf import modelprops as mp
+
+    rec = episodes.Recorder(ctx, b, key, extra=extra)
+    mon = mp.C09Mon(b, ctx, model)
+    st_, ts = b.reset(envs.make_key(key))
+    hs, hts = episodes.host((st_, ts))
+    for t in range(max_steps):
+        a = b.to_action(policy(hs, t))
+        rec.actions.append(a)
+        nst, nts = b.step(st_, a)
+        hn, hnt = episodes.host((nst, nts))
+        mon.on_step(rec, t, hs, hts, a, hn, hnt, False)
+        # classification counters
+        pos = model._tab(hs)[0]
+        lg = model.legal(hs)
+        dest = [tuple((pos[k] + MOVES[int(a[k])]).tolist()) for k in range(model.A) if 1 <= int(a[k]) <= 4 and lg[k, int(a[k])]]
+        worst = max([dest.count(d) for d in dest], default=0)
+        if worst >= 2:
+            ctx.count("synthetic_collision_steps")
+        if worst >= 3:
+            ctx.count("synthetic_collisions_of_3_or_more")
+        if (model._connected(hn) & ~model._connected(hs)).any():
+            ctx.count("synthetic_connection_steps")
+        st_, ts, hs, hts = nst, nts, hn, hnt
+        if int(hnt.step_type) == LAST:
+            if model._connected(hn).all():
+                ctx.count("synthetic_episodes_all_connected")
+            return
+
+
+def synthetic_c09(ctx, item, seed, tier):
+    from vf import envs, episodes, hyp
+    from vf.hyp import st
+
+    shard, shards = item.get("shard", 0), item.get("shards", 1)
+    for i, entry in enumerate(_SYN_ENTRIES):
+        if i % shards != shard:
+            continue
+        b = envs.bundle("Connector", entry)
+        model = M(b)
+
+        def one(key, mode, noise, b=b, model=model, entry=entry):
+            extra = {"synthetic": True, "config": entry}
+            _syn_episode(b, ctx, model, key, _syn_policy(model, mode, noise), model.T + 1, extra)
+            ctx.count("synthetic_episodes")
+
+        hyp.drive({"key": episodes.keys(), "mode": st.sampled_from(["solve", "crowd"]),
+                   "noise": st.lists(st.integers(0, 2**16), min_size=4, max_size=24)},
+                  one, seed + 977 * (i + 1), 8 if tier == "quick" else 60)
+
+
+def synthetic_replay(case):
+    from vf import envs, episodes
+    from vf import modelprops as mp
+    from vf.runner import Ctx
+
+    ctx = Ctx("C09", {})
+    b = envs.bundle("Connector", case["config"])
+    rec = episodes.Recorder(ctx, b, case["key"], extra={"synthetic": True, "config": case["config"]})
+    episodes.run_actions(b, rec, case["actions"], mp.C09Mon(b, ctx, M(b)))
+    return [(f["oracle"], f["sig"], f["msg"]) for f in ctx.failures.values()]
